@@ -127,7 +127,7 @@ func c43RepoCfg() c43Cfg {
 			"ColumnsTable.allColsWithDefaultValue": "per-statement column memo; M1 requires ColumnsTable to be constructed afresh by GetTableInsensitive",
 			"informationSchemaPartitionIter.pos":   "cursor of the single-partition iterator",
 		},
-		floors: map[string]int{"L1": 71, "R1": 150, "R2": 32, "M1": 90, "E1": 39, "E2": 16, "X1": 65, "S1": 10},
+		floors: map[string]int{"L1": 71, "R1": 150, "R2": 32, "M1": 90, "E1": 39, "E2": 16, "X1": 65, "S1": 6},
 	}
 }
 
